@@ -181,3 +181,86 @@ assert implies(len(s0) > 0 and s0[0] not in "#^@+" and s0[-1] != "+", len(fp.out
 )
 
 UNITS.append(write_lines)
+
+
+# ---------------------------------------------------------------------------------------------------------
+# C12/U4 emission identity of a user (splicer) line.
+# (a) write_continue on a line without break hints: exactly one physical line, indentation + line + newline.
+write_continue_plain = Unit(
+    prop="C12", name="write_continue_plain", target="shroud/util.py::WrapperMixin.write_continue",
+    params={"self": ("obj", "WrapperMixin", {"linelen": "int", "indent": "int", "cont": "str"}),
+            "fp": "file", "line": "str", "spaces": "str"},
+    requires=["len(line) >= 1", r"'\t' not in line and '\f' not in line and line[0] != '\r'"],
+    loops={
+        0: {"index": "k0", "inv": ["len(parts) == 0", "part == line[:k0]", "indent == 1"]},
+        1: {"index": "k1", "inv": [
+            "len(parts) == 1 and parts[0] == line",
+            "len(fp.out) == 0",
+            "implies(k1 == 0, subline == spaces * self.indent and nparts == 0)",
+            "implies(k1 == 1, subline == spaces * self.indent + line)",
+        ]},
+    },
+    ensures=["len(fp.out) == 1 and fp.out[0] == spaces * self.indent + line + '\\n'"],
+    raises=[],
+)
+
+
+def _wc_callee_plain(ref):
+    """write_continue through the contract proved as write_continue_plain; for payloads with break hints the
+    output is unspecified here (an arbitrary string is appended)."""
+    def call(ex, st, args, kw, node):
+        fp, line, spaces = args
+        s = ex.want_str(line, st, node)
+        ex.safety(st, "IndexError", z3.Length(s) >= 1, node, "write_continue needs a non-empty line")
+        me = st.heap[ref.oid]
+        out = st.heap[fp.oid].f["out"]
+        c = ex.as_hlist(st.heap[out.oid])
+        plain = z3.And(z3.Not(z3.Contains(s, z3.StringVal("\t"))), z3.Not(z3.Contains(s, z3.StringVal("\f"))),
+                       z3.SubString(s, 0, 1) != z3.StringVal("\r"))
+        unknown = z3.String(ex_fresh("wc_out"))
+        val = z3.If(plain, z3.Concat(ex.rep(spaces.e, me.f["indent"].e, st), s, z3.StringVal("\n")), unknown)
+        st.heap[out.oid] = HList("str", c.n + 1, z3.Store(c.arr, c.n, val))
+        return VNone()
+    return VFun("WrapperMixin.write_continue[plain contract]", call)
+
+
+def ex_fresh(base):
+    from pyvc.values import fresh_name
+    return fresh_name(base)
+
+
+_uli = dict(
+    target="shroud/util.py::WrapperMixin.write_lines",
+    params={"self": ("obj", "WrapperMixin", {"indent": "int"}), "fp": "file", "uline": "str", "spaces": "str",
+            "lines": ("clist", "py")},
+    callees={("WrapperMixin", "write_continue"): _wc_callee_plain},
+    loops={1: {"index": "i1", "inv": [
+        "i1 <= 1",
+        "implies(i1 == 0, len(fp.out) == 0 and self.indent == old_indent)",
+        "implies(i1 == 1 and len(uline) > 0, len(fp.out) == 1 and fp.out[0] == spaces * old_indent + uline + '\\n')",
+        "implies(i1 == 1 and len(uline) == 0, len(fp.out) == 1 and fp.out[0] == '\\n')",
+        "implies(i1 == 1, self.indent == old_indent)"]},
+           2: {"inv": ["len(fp.out) == 0 and self.indent == old_indent and subline == uline"]}},
+    init="old_indent = self.indent\n",
+    ensures=[
+        # identical up to leading indentation; an empty line stays an empty line
+        "implies(len(uline) > 0, len(fp.out) == 1 and fp.out[0] == spaces * old_indent + uline + '\\n')",
+        "implies(len(uline) == 0, len(fp.out) == 1 and fp.out[0] == '\\n')",
+        "self.indent == old_indent",
+    ],
+    raises=[],
+)
+_domain = [
+    "isstr(lines[0]) and asstr(lines[0]) == uline",
+    r"'\n' not in uline",
+    # the property's domain: the line does not begin in column one with a formatting metacharacter
+    r"implies(len(uline) > 0, uline[0] not in '#@^+-\r')",
+]
+# unrestricted: expected to be refuted by an interior TAB/FF and a trailing '+' (known finding)
+user_line_identity = Unit(prop="C12", name="user_line_identity", requires=_domain, **_uli)
+# with the carve-out of the known finding: must verify
+user_line_identity_carved = Unit(
+    prop="C12", name="user_line_identity_carved",
+    requires=_domain + [r"'\t' not in uline and '\f' not in uline and not uline.endswith('+')"], **_uli)
+
+UNITS += [write_continue_plain, user_line_identity, user_line_identity_carved]
